@@ -105,6 +105,9 @@ ASSUMPTIONS = ["integrating the sensitivity systems yields the derivatives of th
                "hessian_is_second_derivative_partial takes as hypotheses that the integrated first-order / forward-forward blocks are the "
                "first- / second-order sensitivities of the observed states (variational-equation theorem, not in Mathlib); what is "
                "proved is that the integrated system is the second-order variational equation (ff_rhs_is_true) and the assembly",
+               "time-dependent catalogue: the window's non-smooth time points do not depend on the parameters, so the reference solution at a "
+               "fixed time is smooth in the parameters; pygom integrates across those points with its own error control (trajectory error up to "
+               "~5e-7 observed): the residual entry of the full_output dictionaries is compared at 1e-5 (1+|x|) max(w) for these models",
                "the pointwise right-hand-side oracle trusts sympy.diff / lambdify applied to get_ode_eqn() (C01 ties get_ode_eqn, C03 sympy.diff)"]
 TRUSTED = ["harness generator", "hand-written right-hand sides of the time-dependent catalogue (losscommon.TD_CATALOGUE)", "Lean driver JSON codec and list<->function glue", "numpy/scipy float arithmetic within the stated tolerances"]
 
@@ -900,7 +903,10 @@ def run_case(case):
         """the entries of a full_output dictionary that the docstrings name, each against its own reference (direct oracle)"""
         scale_g = float(np.max(np.abs(orc["grad"]))) + 1e-300
         refs = {"grad": (orc["grad"], 1e-5 * scale_g + 1e-6 * (1.0 + orc["cost"])),
-                "resid": (orc["resid"] if p_ > 1 else orc["resid"].ravel(), 1e-7 * (1.0 + float(np.max(np.abs(orc["sol"]))))),
+                # weighted residuals: the error of pygom's own integration (1e-9 on smooth right-hand sides; up to ~5e-7 observed
+                # across the non-smooth time points of the time-dependent catalogue) times the largest weight
+                "resid": (orc["resid"] if p_ > 1 else orc["resid"].ravel(),
+                          (1e-5 if case["kind"] == "td" else 1e-7) * (1.0 + float(np.max(np.abs(orc["sol"])))) * max(1.0, float(np.max(W)))),
                 "JTJ": (orc["JTJ"], tolJ_)}
         if fn == "hessian" and orc.get("H") is not None:
             full = np.asarray(out_.get("H", np.zeros((0, 0))), float)
@@ -981,7 +987,13 @@ def run_case(case):
         # the modelled source has these evaluators: their absence is a broken correspondence, not a crash of the harness
         mism.append({"what": "evaluator missing: " + ",".join(missing),
                      "detail": "the Lean model (Sens.evalForwardForward) mirrors eval_forwardforward WITH the grad_jacobian / grad_grad terms"})
-    if True:
+    # time-dependent models: once at a time inside the window and once outside it (where the windowed parameter's column of
+    # d f / d theta is exactly zero but S and X are not: an evaluator that skips "inactive" parameters is wrong there)
+    tqs = [tq]
+    if case["kind"] == "td" and case["td"]["shape"] != LC.TD_AUTONOMOUS:
+        a_, b_ = case["td"]["win"]
+        tqs.append(0.5 * a_ if case["td"]["shape"].startswith("late") else b_ + 0.5)
+    for tq in tqs:
         rz = random.Random(case["noise_seed"])
         zq = [Fraction(rz.randint(1, 30), 10) for _ in range(nS)] + [Fraction(rz.randint(-20, 20), 8) for _ in range(nS * nP + nS * nP * nP)]
         z = np.array([float(q) for q in zq])
@@ -1022,7 +1034,7 @@ def run_case(case):
                     viol.append({"what": what, "signature": SIG_RHS + (":nS=1" if nS == 1 else ""),
                                  "detail": worst(real, orc) + " terms=%s" % sorted(terms)})
                 else:
-                    tags.append("ff-rhs:agrees-with-independent-derivation")
+                    tags.append("ff-rhs:agrees-with-independent-derivation" + (":outside-the-time-window" if tq != tqs[0] else ""))
         except Exception as exc:
             viol.append({"what": "ode_and_forwardforward raised %s: %s" % (type(exc).__name__, str(exc)[:160]), "signature": "forwardforward:raises", "detail": ""})
 
